@@ -382,7 +382,7 @@ func genC07N(seed uint64, run int, tier string) Scenario {
 	if len(sc.Ops) > 2 {
 		sc.Ops = sc.Ops[:2]
 	}
-	rdNS := pick(r, 700, 20_000, 50_000, 100_000, 250_000)
+	rdNS := pick(r, 2_000, 20_000, 50_000, 100_000, 250_000)
 	sc.ReadDelayUS = int64(rdNS / 1000)
 	if rdNS < 1000 {
 		sc.ReadDelayUS = 0
